@@ -48,6 +48,7 @@ def cq_lentry(f):
 
 def cq_kind(k):
     return {"dir": "(Some KDir)", "file": "(Some KFile)", "special": "(Some KSpecial)", "fifo": "(Some KFifo)",
+            "unreadable": "(Some KUnreadable)",
             None: "None"}[k]
 
 
@@ -85,8 +86,9 @@ def cq_natlist(l):
 
 
 def cq_fixes(fx):
-    return "(mkFixes %s %s %s %s %s %s %s)" % tuple(coq_bool(fx[k]) for k in (
-        "skip_child", "sorted_enum", "dash_hides", "num_unset", "remove_safe", "dot_safe", "hidden_stays"))
+    return "(mkFixes %s %s %s %s %s %s %s %s)" % tuple(coq_bool(fx[k]) for k in (
+        "skip_child", "sorted_enum", "dash_hides", "num_unset", "remove_safe", "dot_safe", "hidden_stays",
+        "skip_unreadable"))
 
 
 STRIP = {"none": "StripNone", "nonencoded": "StripNonencoded", "full": "StripFull"}
@@ -126,6 +128,10 @@ def probe_jobs():
         # D25: hidden by its .cap file, named again by a ./ block
         {"op": "c07_listing", "dir": "/", "kinds": ["umn"], "perms": [[0, 1, 2]],
          "tree": [f("fred"), f(".cap/fred", "Type=X\n"), f(".names", "Path=./fred\nName=Back\n")]},
+        # D26: an HTML file the title handler cannot open
+        {"op": "c12_faults", "dir": "/", "kinds": ["umn"], "perms": ["natural"], "requests": [],
+         "tree": [f("a.txt"), f("b.html", "<html><title>T</title></html>\n")],
+         "call_faults": {"b.html": {"call": "open", "from": 1, "errno": "EACCES"}}},
     ]
 
 
@@ -147,6 +153,7 @@ def probe_fixes(res):
     fx["dot_safe"] = "entries" in only(res[5], "umn")[0]["result"]
     r = only(res[6], "umn")[0]["result"]
     fx["hidden_stays"] = "entries" in r and not any(e["selector"] == "/fred" for e in r["entries"])
+    fx["skip_unreadable"] = "entries" in only(res[7], "umn")[0]["result"]
     return fx
 
 
